@@ -193,20 +193,38 @@ def gen_auto(rng, n):
         field = rfield(rng)
         shape = rng.choice([[], [1], [2], [3], [2, 2]])
         cnt = int(np.prod(shape)) if shape else 1
+        layout = rng.choice(["row", "col", "col"])
+        if layout == "col":
+            # the point index is the LAST axis, the coordinate index the second-to-last: shape (..., dim+1, m);
+            # m is chosen equal to and different from dim+1 (square arrays hide axis mix-ups)
+            shape = rng.choice([[dim + 1], [1], [2], [dim + 2], [2, dim + 1], [2, 3]])
+            cnt = int(np.prod(shape))
         pz = rng.choice([0.0, 0.2, 0.45])
         pts = [[Z(0) if rng.random() < pz else C.rz(rng, field, 6, 3) for _ in range(dim + 1)] for _ in range(cnt)]
         if rng.random() < 0.15:          # no chart at all: every column has a zero somewhere
             for c in range(dim + 1):
                 pts[rng.randrange(cnt)][c] = Z(0)
-        yield {"dim": dim, "field": field, "shape": shape, "pts": C.enc(pts, field)}
+        yield {"dim": dim, "field": field, "shape": shape, "layout": layout, "pts": C.enc(pts, field)}
 
 
 def run_auto(inp):
     f = inp["field"]
     pts = C.dec(inp["pts"], f).reshape(tuple(inp["shape"]) + (inp["dim"] + 1,))
+    col = inp.get("layout") == "col"
     try:
-        aff, chart = P.affine_coords(pts.copy(), chart_index=None)
-        return {"aff": tolist(aff), "chart": int(chart)}
+        if col:
+            aff, chart = P.affine_coords(np.moveaxis(pts, -1, -2).copy(), chart_index=None, column_vectors=True)
+            aff = np.moveaxis(aff, -1, -2)
+        else:
+            aff, chart = P.affine_coords(pts.copy(), chart_index=None)
+        out = {"aff": tolist(aff), "chart": int(chart)}
+        # the same call with the chosen chart given explicitly must agree (option combinations are consistent)
+        if col:
+            ex = np.moveaxis(P.affine_coords(np.moveaxis(pts, -1, -2).copy(), chart_index=int(chart), column_vectors=True), -1, -2)
+        else:
+            ex = P.affine_coords(pts.copy(), chart_index=int(chart))
+        out["explicit_same"] = bool(np.asarray(ex).shape == np.asarray(aff).shape and np.all(np.asarray(ex) == np.asarray(aff)))
+        return out
     except GeometryError:
         return {"aff": "GeometryError"}
 
@@ -218,7 +236,7 @@ def lean_auto(inp, obs):
 def judge_auto(inp, obs, lr):
     f, dim = inp["field"], inp["dim"]
     cplx = f == "QI"
-    tags0 = {"field": f, "site": "affine_coords(chart_index=None)"}
+    tags0 = {"field": f, "site": "affine_coords(chart_index=None)", "layout": inp.get("layout", "row")}
     if "exc" in obs:
         return {"expected": "(affine, chart) or GeometryError", "observed": obs, "tags": dict(tags0, exc=obs["exc"]), "property_failure": True}
     r = lr[0]
@@ -243,6 +261,9 @@ def judge_auto(inp, obs, lr):
                 "property_failure": bool(np.any(pts[:, obs["chart"]] == 0))}
     if not same(asarr(obs["aff"], (-1, dim), cplx), C.dec(m["affine"], f).reshape(-1, dim)):
         return {"expected": m["affine"], "observed": obs["aff"], "tags": dict(tags0, values=True)}
+    if not obs.get("explicit_same", True):
+        return {"expected": "same coordinates as with the chosen chart passed explicitly", "observed": "different",
+                "tags": dict(tags0, explicit=True)}
     return None
 
 
@@ -364,12 +385,16 @@ def run_hyp(inp):
         T = P.hyperplane_coordinate_transform(nv.copy())
     finally:
         np.linalg.qr = orig
+    if "q" not in seen:
+        # the implementation no longer goes through numpy.linalg.qr: nothing to feed the contract model with;
+        # the conclusions of hyperplaneTransform_spec are still judged on the returned matrix
+        return {"no_qr": True, "Tf": np.asarray(T.proj_data, dtype=float).tolist()}
     return {"T": Q.enc(T.proj_data), "Q": Q.enc(seen["q"]), "r00": Q.qs(seen["r"][0, 0]),
             "Tf": np.asarray(T.proj_data, dtype=float).tolist()}
 
 
 def lean_hyp(inp, obs):
-    if "exc" in obs:
+    if "exc" in obs or obs.get("no_qr"):
         return []
     return [{"op": "c16.hyp", "m": inp["m"], "Q": obs["Q"], "T": obs["T"], "normal": inp["normal"], "r00": obs["r00"]}]
 
@@ -377,6 +402,16 @@ def lean_hyp(inp, obs):
 def judge_hyp(inp, obs, lr):
     if "exc" in obs:
         return {"expected": "a transformation", "observed": obs, "tags": {"exc": obs["exc"]}, "property_failure": True}
+    T = np.array(obs["Tf"])
+    nv = np.array([float(F(x)) for x in inp["normal"]])
+    if obs.get("no_qr"):
+        if float(np.max(np.abs(T.T @ T - np.eye(inp["m"])))) > 1e-9:
+            return {"expected": "orthogonal T", "observed": T.tolist(), "tags": {"site": "orthogonal"}, "property_failure": True}
+        col = T[:, 0] * np.linalg.norm(nv)
+        if not (close(col, nv, 1e-9) or close(-col, nv, 1e-9)):      # the orientation of the normal is not part of the property
+            return {"expected": {"first column * |n| = ± normal": nv.tolist()}, "observed": col.tolist(), "tags": {"site": "first_column"},
+                    "property_failure": True}
+        return None
     if not lr or "err" in lr[0]:
         return {"expected": "model answer", "observed": lr, "tags": {"driver_err": True}}
     r = lr[0]["ok"]
@@ -871,18 +906,20 @@ def run_hyp_o(inp):
     img_on = np.asarray((T @ P.Point(on)).proj_data)
     img_off = np.asarray((T @ P.Point(pts)).proj_data)
     img_n = np.asarray((T @ P.Point(nv)).proj_data)
+    e0 = np.eye(inp["m"])[0]
+    # the orientation (normal to +e0 or to -e0) is not part of the property: one global sign is allowed
     return {"orth": float(np.max(np.abs(M @ M.T - np.eye(inp["m"])))),
             "on": float(np.max(np.abs(img_on[:, 0]))),
-            "off": float(np.max(np.abs(img_off[:, 0] - pts @ nn))),
-            "normal_image": float(np.max(np.abs(img_n / np.linalg.norm(nv) - np.eye(inp["m"])[0])))}
+            "off": float(min(np.max(np.abs(img_off[:, 0] - pts @ nn)), np.max(np.abs(img_off[:, 0] + pts @ nn)))),
+            "normal_image": float(min(np.max(np.abs(img_n / np.linalg.norm(nv) - e0)), np.max(np.abs(img_n / np.linalg.norm(nv) + e0))))}
 
 
 def judge_hyp_o(inp, obs, lr):
     if "exc" in obs:
         return {"expected": "hyperplane transform", "observed": obs, "tags": {"exc": obs["exc"]}}
     for k, what in (("orth", "orthogonal matrix"), ("on", "points of the hyperplane go to chart-0 infinity"),
-                    ("off", "chart-0 coordinate = signed distance to the hyperplane"),
-                    ("normal_image", "unit normal goes to +e0")):
+                    ("off", "chart-0 coordinate = ± signed distance to the hyperplane"),
+                    ("normal_image", "unit normal goes to ±e0")):
         if not (obs[k] <= 1e-9):
             return {"expected": what, "observed": obs, "tags": {"site": k}}
     return None
@@ -1059,9 +1096,10 @@ CLAUSES = [
            what="affine_coords / projective_coords (function, Point method, Point constructor, column layout) and in_affine_chart vs the "
                 "model over ℚ and ℚ(i): dims 1-5, every chart, composite shapes, rescaled representatives incl. purely imaginary and zero chart coordinates"),
     Clause("autochart_corr", "corr", gen_auto, run_auto, judge_auto, lean=lean_auto, site="projective.affine_coords(chart_index=None)",
-           budget={"quick": 100, "thorough": 2500},
+           budget={"quick": 150, "thorough": 3500},
            what="automatic chart choice (argmax over charts of the smallest |coordinate|): chosen chart, coordinates, and GeometryError "
-                "exactly when no standard chart contains all points; ℚ and ℚ(i), composite shapes, many zero coordinates"),
+                "exactly when no standard chart contains all points; ℚ and ℚ(i), row AND column layouts (square and non-square), "
+                "composite shapes, many exactly-zero coordinates"),
     Clause("maps_corr", "corr", gen_maps, run_maps, judge_maps, lean=lean_maps,
            site="projective.affine_linear_map/affine_translation", budget={"quick": 120, "thorough": 3000},
            what="proj_data and images of points for affine_linear_map (both layouts) and affine_translation vs the model's block matrices, ℚ and ℚ(i)"),
